@@ -324,6 +324,14 @@ func (e *Exec) loopGuard(fr *frame, in ssa.Instruction) {
 // handleLimit is called when a bound of the encoding is hit on a feasible path.
 func (e *Exec) handleLimit(kind, msg string) {
 	mode := e.h.OnLimit[kind]
+	if strings.HasPrefix(mode, "finding:") {
+		// "finding:<property>:<known-finding id>": hitting this bound is itself the violation of
+		// <property> (work not bounded by gas); it is reported under that property only
+		parts := strings.SplitN(mode, ":", 3)
+		e.knownRegion = parts[2]
+		e.reportViolation(kind, parts[1]+": "+msg, e.curSite(), nil)
+		e.end("assumed-"+kind, msg)
+	}
 	switch mode {
 	case "violation":
 		e.reportViolation(kind, kind+": "+msg, e.curSite(), nil)
